@@ -428,7 +428,7 @@ func TestVerifC18(t *testing.T) {
 		r.HarnessError("expected >= 2 map-order sites in rule_job_needs.go, found %d", len(sites))
 		return
 	}
-	r.Extra["rule"] = "every directed graph on <=4 jobs (thorough: + loop-free graphs on 5 jobs) x needs-entry orders x {one dangling, two dangling in one job (3 placements), one dangling in each of two jobs, one duplicate} entry x every iteration order of the rule's nodes map (Engine A map-order choices at the sites of rule_job_needs.go, deviation budget 1, thorough 2 for <=3 jobs); class = (cyclic|acyclic|dangling|dup) x printed cycle length; non-trivial = class other than acyclic-clean"
+	r.Extra["rule"] = "every directed graph on <=4 jobs (thorough: + loop-free graphs on 5 jobs) x needs-entry orders x {one dangling, two dangling in one job (3 placements), one dangling in each of two jobs, one duplicate} entry x every iteration order of the rule's nodes map (Engine A map-order choices at the sites of rule_job_needs.go, deviation budget 1, thorough 2 for <=3 jobs); the graphs on <=3 jobs again with ids in unusual spellings, ids containing each other, pairs of ids that concatenate to the same text (plainly, around '-' and '_'), every letter in two cases; class = (cyclic|acyclic|dangling|dup) x printed cycle length; non-trivial = class other than acyclic-clean"
 	r.Extra["assumptions"] = []string{"job ids drawn from 5 fixed spellings with mixed case", "needs graphs with more than 5 jobs are not explored"}
 	maxFull := 4
 	r.Bounds["jobs_all_graphs"] = maxFull
@@ -564,6 +564,26 @@ func TestVerifC18(t *testing.T) {
 				c.IDs = c18IDs
 				return check(idx+40<<40, c)
 			})
+		}
+		c18IDs, c18Ghosts = ids, ghosts
+	}
+	// pairs (job, needed job) whose ids concatenate to the same text, plainly or around a separator
+	// ("a" needs "bc" / "ab" needs "c"; "a" needs "b-c" / "a-b" needs "c"): a pair is two ids, not a string
+	{
+		ids, ghosts := c18IDs, c18Ghosts
+		for k, set := range [][2][]string{
+			{{"ab", "c", "a", "bcx", "b"}, {"bc", "cx"}},
+			{{"a-b", "c", "a", "b-cx", "b"}, {"b-c", "c-x"}},
+			{{"a_b", "c", "a", "b_cx", "b"}, {"b_c", "c_x"}},
+		} {
+			c18IDs, c18Ghosts = set[0], set[1]
+			for n := 1; n <= 3; n++ {
+				c18Enumerate(n, true, true, func(idx int64, c *c18Case) bool {
+					c.Desc = "concatenating-ids " + c.Desc
+					c.IDs = c18IDs
+					return check(idx+(41+int64(k))<<40, c)
+				})
+			}
 		}
 		c18IDs, c18Ghosts = ids, ghosts
 	}
